@@ -55,7 +55,14 @@ func TestVerifC09Linearizability(t *testing.T) {
 		ann := map[string]int{}
 		rd.registerForDetector = func(d *DecoyRegistration) { annMu.Lock(); ann[kit.GoID()]++; annMu.Unlock() }
 		rd.updateInDetector = func(d *DecoyRegistration) { annMu.Lock(); ann[kit.GoID()]++; annMu.Unlock() }
-		took := func() int { annMu.Lock(); defer annMu.Unlock(); g := kit.GoID(); n := ann[g]; ann[g] = 0; return n }
+		took := func() int {
+			annMu.Lock()
+			defer annMu.Unlock()
+			g := kit.GoID()
+			n := ann[g]
+			ann[g] = 0
+			return n
+		}
 
 		phantoms := make([]net.IP, nPhantoms)
 		secrets := make([][][]byte, nPhantoms)
